@@ -1683,4 +1683,111 @@ Section System.
     intros Hb. unfold once_ok. apply forallb_forall. intros o _. apply forallb_forall. intros d _.
     apply Z.leb_le. apply exchange_once_counts. exact Hb.
   Qed.
+
+  (* ---------------------------------------------------------------------- *)
+  (* 9. a Do that returns ok got its response in that step (clause c)        *)
+  Definition pend_ok (p : list (nat * Z)) : Prop :=
+    forall i t, In (i, t) p -> exists x, nth_error (cexch c) i = Some x /\ xtok x = t.
+
+  Lemma complete_spec p d e :
+    let '(p', _, rets) := complete p d e in
+    (forall q, In q p' -> In q p) /\
+    (forall r, In r rets -> exists i t, r = (Z.of_nat i, 0) /\ In (i, t) p /\ existsb (fun m => mtok m =? t) d = true).
+  Proof.
+    revert e. induction p as [|[i t] p IH]; intros e; cbn [complete]; [split; [auto|intros r []]|].
+    destruct (existsb (fun m => mtok m =? t) d) eqn:Ex.
+    - specialize (IH (with_sending e (tdel (sending e) t))).
+      destruct (complete p d (with_sending e (tdel (sending e) t))) as [[p' e'] rets]. destruct IH as [H1 H2].
+      split; [intros q Hq; right; apply H1; exact Hq|].
+      intros r [<-|Hr]; [exists i, t; split; [reflexivity|split; [left; reflexivity|exact Ex]]|].
+      destruct (H2 r Hr) as [i' [t' [E1 [E2 E3]]]]. exists i', t'. split; [exact E1|split; [right; exact E2|exact E3]].
+    - specialize (IH e). destruct (complete p d e) as [[p' e'] rets]. destruct IH as [H1 H2].
+      split; [intros q [<-|Hq]; [left; reflexivity|right; apply H1; exact Hq]|].
+      intros r Hr. destruct (H2 r Hr) as [i' [t' [E1 [E2 E3]]]]. exists i', t'. split; [exact E1|split; [right; exact E2|exact E3]].
+  Qed.
+
+  Lemma existsb_proj (d : list msg) t : existsb (fun x => ptok x =? t) (map proj d) = existsb (fun m => mtok m =? t) d.
+  Proof. induction d as [|x d IH]; [reflexivity|]. cbn [map existsb]. rewrite IH. reflexivity. Qed.
+
+  Lemma arrive_ret w toB m :
+    pend_ok (pending w) ->
+    let '(w1, o) := arrive c w toB m in pend_ok (pending w1) /\ ret_ok c (proj_mob o) = true.
+  Proof.
+    intros Hp. unfold arrive. destruct toB.
+    - destruct (handle (app_b c (vers w)) (wb w) m) as [[[e' o] d] nerr].
+      split; [destruct o; exact Hp|reflexivity].
+    - destruct (handle app_a (wa w) m) as [[[e' o] d] nerr].
+      pose proof (complete_spec (pending w) d e') as Hc.
+      destruct (complete (pending w) d e') as [[p' e''] rets]. destruct Hc as [H1 H2].
+      split.
+      + assert (Hp' : pend_ok p') by (intros i t Hin; apply Hp, H1, Hin). destruct o; exact Hp'.
+      + unfold ret_ok, proj_mob. cbn [o_ret o_deliv mo_ret mo_deliv]. apply forallb_forall. intros r Hr.
+        destruct (H2 r Hr) as [i [t [-> [Hin Hex]]]]. cbn [fst snd Z.eqb]. rewrite Nat2Z.id.
+        destruct (Hp i t Hin) as [x [-> Ht]]. destruct (xkind x =? 0); [|reflexivity].
+        rewrite existsb_proj, Ht. exact Hex.
+  Qed.
+
+  Lemma step_ret w e :
+    pend_ok (pending w) -> let '(w', o) := step c w e in pend_ok (pending w') /\ ret_ok c (proj_mob o) = true.
+  Proof.
+    intros Hp.
+    assert (Hquiet : forall w0, pend_ok (pending w0) -> let '(w', o) := quiet w0 in pend_ok (pending w') /\ ret_ok c (proj_mob o) = true).
+    { intros w0 H0. split; [exact H0|reflexivity]. }
+    assert (Hemit : forall w1 toB o, pending (emit w1 toB o) = pending w1) by (intros w1 toB [m|]; reflexivity).
+    destruct e as [i|j|j|j|h|k|i|atB]; cbn [step].
+    - destruct (nth_error (cexch c) i) as [x|] eqn:Hx; [|apply Hquiet; exact Hp].
+      destruct (xkind x =? 0) eqn:K0.
+      + destruct (do_start (wa w) (request_of x)) as [e' [m|]]; unfold started; rewrite Hemit; cbn [pending with_pending with_a].
+        * split; [|reflexivity]. intros i' t Hin. apply in_app_or in Hin. destruct Hin as [Hin|[Hin|[]]]; [apply Hp; exact Hin|].
+          injection Hin as <- <-. exists x. auto.
+        * split; [exact Hp|reflexivity].
+      + assert (Hr0 : ret_ok c (Ob 2 None None [] 0 [(Z.of_nat i, 0)] [] 0) = true).
+        { unfold ret_ok. cbn [o_ret forallb fst snd Z.eqb]. rewrite Nat2Z.id, Hx, K0. reflexivity. }
+        destruct (xkind x =? 1).
+        * destruct (write_start (wa w) (request_of x)) as [e' [m|]]; unfold started; rewrite Hemit; cbn [pending with_a];
+            (split; [exact Hp|]); [|reflexivity].
+          unfold ret_ok, proj_mob. cbn [o_ret mo_ret forallb fst snd Z.eqb]. rewrite Nat2Z.id, Hx, K0. reflexivity.
+        * destruct (write_start (wb w) (notification_of c (vers w) x)) as [e' [m|]]; unfold started; rewrite Hemit; cbn [pending with_b];
+            (split; [exact Hp|]); [|reflexivity].
+          unfold ret_ok, proj_mob. cbn [o_ret mo_ret forallb fst snd Z.eqb]. rewrite Nat2Z.id, Hx, K0. reflexivity.
+    - destruct (nth_error (flight w) j) as [[toB m]|]; [|apply Hquiet; exact Hp]. apply arrive_ret. exact Hp.
+    - destruct (nth_error (flight w) j) as [[toB m]|]; [|apply Hquiet; exact Hp]. apply arrive_ret. exact Hp.
+    - apply Hquiet. exact Hp.
+    - destruct (nth_error (whist w) h) as [[toB m]|]; [|apply Hquiet; exact Hp]. apply arrive_ret. exact Hp.
+    - apply Hquiet. exact Hp.
+    - destruct (find (fun p => Nat.eqb (fst p) i) (pending w)) as [[i' t]|]; [|apply Hquiet; exact Hp].
+      split; [|reflexivity]. cbn [pending with_pending]. intros i0 t0 Hin. apply filter_In in Hin. apply Hp. apply Hin.
+    - destruct atB; apply Hquiet; exact Hp.
+  Qed.
+
+  Lemma run_ret : forall es w, pend_ok (pending w) -> forallb (ret_ok c) (map proj_mob (run c w es)) = true.
+  Proof.
+    induction es as [|e es IH]; intros w Hp; cbn [run map forallb]; [reflexivity|].
+    pose proof (step_ret w e Hp) as Hs. destruct (step c w e) as [w' o]. destruct Hs as [Hp' Hr].
+    cbn [map forallb]. rewrite Hr. apply IH. exact Hp'.
+  Qed.
+
+  Lemma first_class_zero l : Forall (fun x => x = 0%N) l -> first_class l = 0%N.
+  Proof. induction 1 as [|x l Hx _ IH]; [reflexivity|]. cbn [first_class]. rewrite Hx. exact IH. Qed.
+
+  (* The whole property C04 (Spec.c04_ok: exact body, once, options, known token, Do
+     returns with its response, no panic / hang marks) holds on the model's trace of
+     EVERY script, for every well-formed configuration in which no response to a
+     POST/PUT is block-wise *)
+  Theorem exchange_c04_ok es :
+    Forall bump_ok es -> small_upload_responses es -> c04_ok c es (model_obs c es) = true.
+  Proof.
+    intros Hb Hsmall. unfold c04_ok, c04_class.
+    assert (Hbad : first_class (map (fun o => if o_bad o =? 0 then 0%N else if o_bad o =? 1 then 6%N else 7%N) (model_obs c es)) = 0%N).
+    { apply first_class_zero. apply Forall_forall. intros x Hx. apply in_map_iff in Hx. destruct Hx as [o [<- Ho]].
+      unfold model_obs in Ho. apply in_map_iff in Ho. destruct Ho as [mo [<- _]]. reflexivity. }
+    rewrite Hbad. cbn [N.eqb negb].
+    assert (Hdc : first_class (flat_map (fun o => map (delivery_class c es (o_side o)) (o_deliv o)) (model_obs c es)) = 0%N).
+    { apply first_class_zero. apply Forall_forall. intros x Hx. apply in_flat_map in Hx. destruct Hx as [o [Ho Hx]].
+      apply in_map_iff in Hx. destruct Hx as [d [<- Hd]].
+      pose proof (exchange_safety_spec_exact es Hb Hsmall) as Hs. rewrite Forall_forall in Hs. specialize (Hs o Ho).
+      rewrite Forall_forall in Hs. exact (Hs d Hd). }
+    rewrite Hdc. cbn [N.eqb negb]. rewrite (exchange_once es Hb). cbn [negb].
+    unfold model_obs. rewrite run_ret; [reflexivity|]. intros i t [].
+  Qed.
 End System.
